@@ -189,4 +189,9 @@ func runC15(h *H) {
 		h.emit(h.line("C15", "bytes").Str("oapi-" + route).Bar().Str(st))
 	}
 	h.notes["outcomes"] = outcomes
+	// gRPC services: malformed index strings, absent params, out-of-range parameters
+	ng := h.budget(150, 3000)
+	for k := 0; k < ng; k++ {
+		grpcHistory(h, "C15", g.intn(h.budget(20, 60))+6, true)
+	}
 }
